@@ -58,8 +58,8 @@ class CharacterSet(IntEnum):
     def decode(self, b: bytes) -> str:
         return b.decode(self.codec)
 
-    def encode(self, s: str) -> bytes:
-        return s.encode(self.codec)
+    def encode(self, s: str, errors: str = "strict") -> bytes:
+        return s.encode(self.codec, errors)
 
 
 _PYTHON_CODECS = {
